@@ -5,6 +5,7 @@ package c03
 
 import (
 	"fmt"
+	"github.com/ucan-wg/go-ucan/pkg/args"
 	"os"
 	"testing"
 
@@ -19,15 +20,15 @@ import (
 var P = h.New("C03", "exploration",
 	"case = principal/command/time-conforming chain of length 1..6, an argument map of 0..5 top-level entries, per link 0..4 flat statements (==,<,<=,>,>=,like,all,any over existing or top-level-missing fields) whose truth on the arguments is fixed by the property text; the number and (link, index) position of false statements is drawn (none / one / several, incl. root and leaf, first and last statement). Variants: extra statement, extra link (self-delegation) inserted, argument hook returning other arguments or an error. Non-trivial = some link has a non-empty policy and (a statement is false or a hook changes the arguments). Distinct by (length, positions of false statements, statement kinds, hook class).")
 
-func TestMain(m *testing.M) { os.Exit(P.Main(m)) }
+func TestMain(m *testing.M)   { os.Exit(P.Main(m)) }
 func TestReplay(t *testing.T) { P.Replay(t) }
 
 type Case struct {
 	chain.Case
-	ExtraLink  int       `json:"extra_link"`  // link that receives the extra statement
-	ExtraStmt  *pol.Stmt `json:"extra_stmt,omitempty"`
-	InsertAt   int       `json:"insert_at"`   // self-delegation inserted after this link (-1: none)
-	InsertPol  pol.Policy `json:"insert_pol,omitempty"`
+	ExtraLink int        `json:"extra_link"` // link that receives the extra statement
+	ExtraStmt *pol.Stmt  `json:"extra_stmt,omitempty"`
+	InsertAt  int        `json:"insert_at"` // self-delegation inserted after this link (-1: none)
+	InsertPol pol.Policy `json:"insert_pol,omitempty"`
 }
 
 func posClass(li, n int) string {
@@ -111,6 +112,32 @@ func run(c *h.Ctx, cs Case) {
 			c.Fail("C03/history/decision-depends-on-earlier-call", "the same hook check repeated on the same token gives allowed=%v then %v", d.Allowed, again.Allowed)
 		}
 		c.P.Class("history:hook-then-own-args")
+	}
+	// history: a hook that hands back THE SAME *args.Args object on every call, which its owner has extended
+	// in between (an enrichment pipeline): each check is about the arguments as they are at that call
+	if cs.Inv.Hook != nil && !cs.Inv.Hook.Err && len(cs.Inv.Hook.Args) >= 1 {
+		full := cs.Inv.Hook.Args
+		if shared, err := chain.BuildArgs(full[:len(full)-1]); err == nil {
+			fn := func(args.ReadOnly) (*args.Args, error) { return shared, nil }
+			first := cs.Case
+			first.Inv.Hook = &chain.Hook{Args: full[:len(full)-1]}
+			r1 := chain.Eval(first)
+			d1 := chain.DecideWithHookFn(b, fn)
+			if d1.Allowed && !r1.R[8] && !r1.PolicyUnspec {
+				c.Fail("C03/history/hook-args-object-reused", "first call with the shared arguments object: allowed although statements %v are not satisfied", r1.FalseStmts)
+			}
+			last := full[len(full)-1]
+			if err := shared.Add(last.K, last.V.Node()); err == nil {
+				d2 := chain.DecideWithHookFn(b, fn)
+				if d2.Allowed && !r.R[8] {
+					c.Fail("C03/history/hook-args-object-reused", "the hook returned the same *args.Args object as on the previous call, extended by %q in between: the check allowed the invocation although the arguments as they are NOW violate statements %v (the previous call saw them without %q: allowed=%v)\ncase: %+v", last.K, r.FalseStmts, last.K, d1.Allowed, cs)
+				}
+				if !d2.Allowed && r.R[8] && d.Allowed {
+					c.P.Class("history:shared-args-object:denied-though-satisfied") // C05's direction, not judged here
+				}
+				c.P.Class("history:shared-args-object")
+			}
+		}
 	}
 	if cs.Inv.Hook != nil && cs.Inv.Hook.Err && d.Allowed {
 		c.Fail("C03/hook/error-ignored", "hook returned an error but the invocation was allowed")
